@@ -90,7 +90,7 @@ func Harness_C17_q_struct_roundtrip() {
 		}
 		ref = append(ref, kkRef(13, ssRefInner(e))...)
 	}
-	verif.Assert(verif.Eq(enc, ref), "marshal-equals-reference-encoding")
+	kkWire(enc, ref, "marshal-equals-reference-encoding")
 	var back ssAll
 	p := verif.Panics(func() { err = Unmarshal(enc, &back) })
 	verif.Assert(!p, "nopanic-unmarshal")
@@ -131,7 +131,7 @@ func Harness_C17_q_inline_list_roundtrip() {
 		}
 		ref = append(ref, ssRefInner(e)...)
 	}
-	verif.Assert(verif.Eq(enc, ref), "inline-list-equals-reference-encoding")
+	kkWire(enc, ref, "inline-list-equals-reference-encoding")
 	var back ssInline
 	p := verif.Panics(func() { err = Unmarshal(enc, &back) })
 	verif.Assert(!p && err == nil, "unmarshal-ok")
@@ -195,8 +195,7 @@ func Harness_C17_q_large_list_elements() {
 		payload := append(kkRef(1, e.Blob), kkRef(2, []byte{e.N})...)
 		ref = append(ref, kkRef(14, payload)...)
 	}
-	wireOK := verif.Eq(enc, ref)
-	verif.Assert(wireOK, "large-elements-equal-reference-encoding")
+	wireOK := kkWire(enc, ref, "large-elements-equal-reference-encoding")
 	if !wireOK {
 		return // decoding a mis-framed wire adds nothing and is expensive
 	}
